@@ -384,7 +384,29 @@ def must_reject(R, api: Api, how: str, text: str, what: str, klass: str) -> bool
             n, pids = "?", "?"
         R.fail("accepted:" + what, f"{what} accepted via {how}: returned a tree with {n} nodes, pids={pids}\n document: {_short(text)}", klass)
         return False
+    _probe_after_fault(R, api, how, text, what)
     return True
+
+
+_PROBE = None
+
+
+def _probe_after_fault(R, api: Api, how: str, faulty: str, what: str) -> None:
+    """History oracle: a conversion that failed must not disturb the next one.  After EVERY rejected document a fixed
+    well-formed document (points before a split, an empty and a nested alternative) is converted through the same API."""
+    global _PROBE
+    if _PROBE is None:
+        d = Doc((2, ((1, None), None, (1, ((1, None), (1, None))))), LABELS[1])
+        _PROBE = (join(d.toks), d.rows, d.typ)
+    text, rows, typ = _PROBE
+    ok, tree = R.impl(how + "(after a rejected document)", api.call, how, text,
+                      klass=f"raises:well-formed-document-after-rejected-one:{what.split(':')[0]}")
+    if not ok:
+        return
+    kind, why = diff_kind(table_of(tree), expected(rows, typ), tree)
+    if kind:
+        R.fail(kind, f"well-formed document converted right after the rejected document {_short(faulty, 120)!r}: {why}",
+               f"{kind}:after-rejected-document:{what.split(':')[0]}")
 
 
 def may_reject(R, api: Api, how: str, text: str, rows, typ, what: str) -> None:
@@ -812,6 +834,9 @@ def gen_sweeps(tier):
         yield ("fan", n, 0)
     for pad in range(0, 72):
         yield ("pad", pad, 0)
+    for pad in range(0, 72):
+        yield ("pad-comments", pad, 0)
+        yield ("pad-comments-lines", pad, 0)
 
 
 def sweep_body(shape, n):
@@ -840,6 +865,20 @@ def check_sweep(case, R):
         api.close()
         R.outcome("pad", len(text) // 4096)
         return
+    if shape.startswith("pad-comments"):
+        # a comment (whose text looks like document text) after every point, a colour marker now and then: every alignment of
+        # comments, numbers and brackets against any read boundary up to the document length
+        d = Doc((450, ((120, None), (130, None))), LABELS[0])
+        ins = {}
+        for j, o in enumerate(d.points):
+            ins[o + 5] = [COMMENTS[2] if j % 3 else "; (1 2 3 4) ( (5 6 7 8) | (9 9 9 9) ) tail of a long comment line\n"] + ([COLOURS[0]] if j % 50 == 7 else [])
+        lex, inner = lexemes(d, ins)
+        text = " " * n + join(lex, "lines" if shape.endswith("lines") else "min", inner)
+        for how in ("from_stream", "convert"):
+            must_convert(R, api, how, text, d.rows, d.typ, "sweep:pad-comments", "long")
+        api.close()
+        R.outcome(shape, len(text) // 4096)
+        return
     d = Doc(sweep_body(shape, n), LABELS[n % 4])
     text = join(d.toks)
     R.outcome(shape, low, n // 100)
@@ -853,6 +892,46 @@ def check_sweep(case, R):
                 R.fail(kd, f"{shape} of {n} points under lowered recursion limit: {why}", f"{kd}:sweep:low-limit")
     else:
         must_convert(R, api, "from_stream", text, d.rows, d.typ, f"sweep:{shape}", "long")
+
+
+# --------------------------------------------------------------------------- space 7: points that repeat their parent
+
+
+def gen_repeats(p_max: int):
+    for b in docs_upto(0, p_max):
+        n = npoints(b)
+        for mask in range(1, 1 << (n - 1)) if n > 1 else ():
+            for mode in ("all", "xyz", "r"):
+                yield (b, mask, mode)
+
+
+def check_repeats(case, R):
+    """Points whose coordinates and/or radius repeat those of their parent point verbatim (a point written twice in a branch, an
+    alternative starting at the split point): still exactly one node per point, in document order, attached as written."""
+    body, mask, mode = case[0], int(case[1]), case[2]
+    R.state(case)
+    plain = Doc(body)
+    parents = [r[0] for r in plain.rows]
+    memo = {}
+
+    def point(i):
+        if i not in memo:
+            f = base_point(i)
+            if i > 0 and (mask >> (i - 1)) & 1:
+                pf = point(parents[i])
+                f = {"all": pf, "xyz": (pf[0], pf[1], pf[2], f[3]), "r": (f[0], f[1], f[2], pf[3])}[mode]
+            memo[i] = f
+        return memo[i]
+
+    d = Doc(body, LABELS[(mask + len(parents)) % 4], point=point)
+    api = Api()
+    try:
+        feat = "repeats-parent:" + mode
+        must_convert(R, api, "from_stream", join(d.toks), d.rows, d.typ, "repeated-point", feat)
+        must_convert(R, api, "convert", join(*lexemes(d)[:1], "min"), d.rows, d.typ, "repeated-point", feat)
+        R.outcome(mode, bin(mask).count("1"), len(parents))
+    finally:
+        api.close()
 
 
 # --------------------------------------------------------------------------- spaces
@@ -895,10 +974,15 @@ def spaces(tier, seed):
         Space.of("sweeps", lambda: gen_sweeps(tier), check_sweep,
                  bounds={"default_limit": "chain: every length 1..1200" + (" and every 25 up to 5000; before-split / in-alternative: every length 1..1200"
                                                                           if tier == "thorough" else "; before-split / in-alternative: every 10 in 900..1200"),
-                         "lowered_limit": f"+{LOW_EXTRA} frames: every length 1..250 x 3 positions", "pad": "700-point chain, 0..71 leading blanks (crosses 4096/8192/16384)",
+                         "lowered_limit": f"+{LOW_EXTRA} frames: every length 1..250 x 3 positions", "pad": "700-point chain, 0..71 leading blanks (crosses 4096/8192/16384); the same shifts of a 700-point document with a split that carries a "
+                                "comment after every point (comment text looks like document text) in the min and lines styles",
                          "nesting": "staircases of every depth 1.." + ("200" if tier == "quick" else "400") + " descending in the first / middle / last alternative",
                          "alternatives": "one split with every number of alternatives 2..128"}),
     ]
+    rep_max = 4 if tier == "quick" else 5
+    out.append(Space.of("repeated-points", lambda: gen_repeats(rep_max), check_repeats,
+                        bounds={"points": rep_max, "alternatives": "2-3", "repeating_points": "every non-empty subset of the points after the first",
+                                "what_repeats": ["x y z r (verbatim copy of the parent point)", "x y z only", "r only"]}))
     for sp in out:
         sp.auto_retain = True  # every tree returned through R.impl is re-inspected after the next two cases of the worker
     return out
